@@ -23,3 +23,23 @@ func specPathStyle(b string, p string) string {
 	}
 	return "/" + b + p
 }
+
+// specWildcard: S3 CORS wildcard matching. A pattern holds at most one "*", which stands for any (possibly empty)
+// sequence of characters: value == prefix + w + suffix for some w. Without "*" the pattern must equal the value.
+func specWildcard(pattern string, value string) bool {
+	i := strings.Index(pattern, "*")
+	if i < 0 {
+		return pattern == value
+	}
+	pre := pattern[:i]
+	suf := pattern[i+1:]
+	return len(value) >= len(pre)+len(suf) && value == pre+value[len(pre):len(value)-len(suf)]+suf
+}
+
+// specRuleMatches: a CORS rule matches a request iff its origins match the origin, its methods contain the method
+// and, for a preflight, its allowed headers cover every requested header.
+func specRuleMatches(rule CORSRule, origin string, method string, requestedHeaders []string, preflight bool) bool {
+	_, originOK := matchOrigin(rule.AllowedOrigins, origin)
+	return originOK && matchMethod(rule.AllowedMethods, method) &&
+		(!preflight || matchRequestedHeaders(rule.AllowedHeaders, requestedHeaders))
+}
